@@ -132,7 +132,12 @@ CLAIMS = {
   "force P_j = 0; two different last layers accepted on the same queries agree on all query points, impossible with >= 2^bound distinct "
   "points; fold_degree: a polynomial of degree >= bound keeps degree >= d after folding for all but at most 2^k - 1 challenges. "
   "Tied to the code by every single-position corruption (value, sibling leaf, auth node, commitment, last-layer coefficient, lengths) "
-  "of honest instances from the Lean prover and by honestly folded high-degree inputs: real fri_commit+fri_verify vs model vs oracle.",
+  "of honest instances from the Lean prover and by honestly folded high-degree inputs: real fri_commit+fri_verify vs model vs oracle. "
+  "NO QUERY IS SKIPPED (section 7 of the file): for ANY sibling witness and any query order, a successful compute_next_layer has put every input query's coset among the rows "
+  "that are Merkle-checked and folded, with the queried value at its position of the row (computeNextLayer_covers, computeNextLayer_row_of_query); through all layers every "
+  "first-layer query has its image in the last layer (verifyLayers_covers), and an accepting fri_verify has applied the last-layer polynomial check to the image of EVERY "
+  "query (verify_checks_every_query) — the only hypothesis is that indices do not wrap in the field (shown necessary). Tie: adaptive forgeries (junk values at trailing "
+  "queries with the witness that is honest for the prefix; dropped-query forgery; points / values of unequal length).",
   "NOT proved (stated in an UNPROVED block and DESIGN section 10): the probabilistic claim (rejection probability decaying "
   "exponentially in the number of queries; dishonest folding / proximity gaps; random-oracle step). The harness runs one instance per "
   "high-degree input and does not measure the decay.",
